@@ -1,0 +1,32 @@
+//go:build verif
+
+// Contracts for the deductive verifier in /verif (govc). Comment-only: this file adds no code.
+package syslwrapper
+
+// ---- C12: the simplified application keeps every REST parameter
+
+// Query and path parameters are both mapped, into the same parameter table, each under its own name and location.
+//@ func (*AppMapper).mapRestParams
+//@   maypanic
+//@   ghostset @call:syslwrapper.(*AppMapper).mapQueryParams query
+//@   ghostset @call:syslwrapper.(*AppMapper).mapURLParams path
+//@   ensures [query-parameters-mapped] old(p.GetQueryParam()) != nil ==> ghost("query")
+//@   ensures [path-parameters-mapped] old(p.GetUrlParam()) != nil ==> ghost("path")
+//@   assert @call:syslwrapper.(*AppMapper).mapQueryParams [own-query-parameters] arg1 == p.QueryParam
+//@   assert @call:syslwrapper.(*AppMapper).mapURLParams [own-path-parameters] arg1 == p.UrlParam
+//@ func (*AppMapper).mapURLParams
+//@   maypanic
+//@   assert @mapupdate:map[string]*syslwrapper.Parameter [path-parameter-under-its-own-name] mapkey == urlParam.GetName() && maptarget == params
+//@   assert @store:F.syslwrapper.Parameter.In [location-is-path] stored == "path"
+//@   ensures [same-table] result == params
+//@   ghostclear @iter:0 mapped
+//@   ghostset @mapupdate:map[string]*syslwrapper.Parameter mapped
+//@   loop 0 step [every-path-parameter-mapped] ghost("mapped")
+//@ func (*AppMapper).mapQueryParams
+//@   maypanic
+//@   assert @mapupdate:map[string]*syslwrapper.Parameter [query-parameter-under-its-own-name] mapkey == queryParam.GetName() && maptarget == params
+//@   assert @store:F.syslwrapper.Parameter.In [location-is-query] stored == "query"
+//@   ensures [same-table] result == params
+//@   ghostclear @iter:0 mapped
+//@   ghostset @mapupdate:map[string]*syslwrapper.Parameter mapped
+//@   loop 0 step [every-query-parameter-mapped] ghost("mapped")
